@@ -56,6 +56,9 @@ def ensure_ntlm_users() -> None:
     if _NTLM_READY:
         return
     d = tempfile.mkdtemp(prefix="verif-ntlm-")
+    import atexit
+    import shutil
+    atexit.register(shutil.rmtree, d, True)
     p = os.path.join(d, "users")
     with open(p, "w") as f:
         f.write(f"{DOMAIN}:{USER}:{PASSWORD}\n")
